@@ -214,7 +214,13 @@ class P:
                     self.next()
                     ty = self.ty()
                 self.expect('p', '=')
-                e = self.expr()
+                e = self.expr(nostruct=False)
+                if self.at('id', 'else'):
+                    self.next()
+                    eb = self.block()
+                    self.expect('p', ';')
+                    stmts.append(('letelse', pat, e, eb))
+                    continue
                 self.expect('p', ';')
                 stmts.append(('let', pat, mut, ty, e))
                 continue
@@ -627,6 +633,25 @@ def find_enum(src, name):
     return vs
 
 
+def find_payload_enum(src, name):
+    """[(variant, payload type text or None)] of an enum whose variants carry at most one (tuple) payload"""
+    m = re.search(r'\benum\s+%s\s*(?:<[^>]*>)?\s*\{' % name, src)
+    if not m:
+        raise Unsupported('enum %s not found' % name)
+    start = m.end() - 1
+    body = src[start + 1:match_brace(src, start) - 1]
+    vs = []
+    for f in split_top(body):
+        f = re.sub(r'#\[[^\]]*\]\s*', '', f).strip()
+        if not f:
+            continue
+        mm = re.match(r'(\w+)\s*(?:\((.*)\))?$', f, re.S)
+        if not mm:
+            raise Unsupported('enum variant %r' % f)
+        vs.append((mm.group(1), mm.group(2).strip() if mm.group(2) else None))
+    return vs
+
+
 # ------------------------------------------------------------------------------------------------ translation
 INT_BITS = {'u8': 8, 'u16': 16, 'u32': 32, 'u64': 64, 'usize': 64}
 
@@ -658,6 +683,7 @@ class World:
         self.consts = {}       # rust path text -> (gallina term, rust type)
         self.get_type = {}     # attribute struct name -> gallina constant
         self.const_vals = {}   # rust constant name -> python value (int, or float for f32)
+        self.penums = {}       # payload enum name -> [(variant, payload rust type or None)]
 
     def gty(self, ty, self_ty=None):
         ty = self.norm(ty, self_ty)
@@ -667,6 +693,16 @@ class World:
             return self.gty(self.newtypes[ty])
         if ty in N_TYPES or ty in self.enums:
             return 'N'
+        m = re.match(r'^(?:Arc|Box|Rc)<(.+)>$', ty)
+        if m:
+            return self.gty(m.group(1), self_ty)
+        if ty in self.penums:
+            return ty
+        m = re.match(r'^Result<(.*)>$', ty)
+        if m:
+            parts = split_top(m.group(1))
+            if len(parts) == 2 and self.known_data(parts[1]):
+                return 'gresult %s %s' % (self.paren(self.gty(parts[0], self_ty)), self.paren(self.gty(parts[1], self_ty)))
         if ty.startswith('(') and ty.endswith(')') and ty != '()':
             parts = split_top(ty[1:-1])
             return '(%s)' % ' * '.join(self.paren(self.gty(x, self_ty)) for x in parts)
@@ -684,6 +720,11 @@ class World:
             return ty
         raise Unsupported('type %s' % ty)
 
+    def known_data(self, ty):
+        """error types that carry data the caller uses (translated records / enums): Result<A, E> keeps E"""
+        ty = self.norm(ty)
+        return ty in self.records or ty in self.penums or ty in self.enums
+
     @staticmethod
     def paren(s):
         return '(%s)' % s if ' ' in s else s
@@ -694,6 +735,9 @@ class World:
         ty = re.sub(r"^&(?:mut)?", '', ty)
         ty = re.sub(r'<>', '', ty)
         ty = re.sub(r'^(\w+)<,*>$', r'\1', ty)          # Name<'a> after the lifetime was dropped
+        m = re.match(r'^(?:Arc|Box|Rc)<(.+)>$', ty)
+        if m:
+            ty = m.group(1)
         if self_ty:
             ty = re.sub(r'\bSelf::Error\b', 'Error', ty)
             ty = re.sub(r'\bSelf\b', self_ty, ty)
@@ -864,6 +908,9 @@ def tr_expr(e, cx, expect=None):
         return 'tt', [], '()'
     if k == 'path':
         p = e[1]
+        if p == ['self'] and 'self' not in cx.vars and cx.self_ty in w.records:
+            sty = cx.self_ty
+            return '{| %s |}' % '; '.join('%s_%s := %s' % (sty, f, cx.places['self.%s' % f][0]) for f, _ in w.records[sty]), [], sty
         if len(p) == 1:
             if p[0] in cx.vars:
                 g, ty = cx.vars[p[0]]
@@ -1059,12 +1106,27 @@ def tr_expr(e, cx, expect=None):
         f = e[1]
         if f[0] == 'path':
             p = f[1]
+            nexp = w.norm(expect, cx.self_ty)
+            mres = re.match(r'^Result<(.*)>$', nexp or '')
+            if mres and p in (['Ok'], ['Err']):
+                rparts = split_top(mres.group(1))
+                if len(rparts) == 2 and w.known_data(rparts[1]):
+                    t, c, ty = tr_expr(e[2][0], cx, rparts[0] if p == ['Ok'] else rparts[1])
+                    return '%s %s' % ('ROk' if p == ['Ok'] else 'RErr', atom(t)), c, nexp
             if p == ['Some'] or p == ['Ok']:
                 inner = opt_inner(w.norm(expect, cx.self_ty))
                 t, c, ty = tr_expr(e[2][0], cx, inner)
                 return 'Some %s' % atom(t), c, 'Option<%s>' % (w.norm(ty, cx.self_ty) or '?')
             if p == ['Err']:
                 return 'None', [], expect
+            if p in (['Arc', 'new'], ['Box', 'new'], ['Rc', 'new']) and len(e[2]) == 1:
+                return tr_expr(e[2][0], cx, expect)
+            if len(p) == 2 and p[0] in w.penums and any(v == p[1] for v, _ in w.penums[p[0]]):
+                pty = dict(w.penums[p[0]])[p[1]]
+                if pty is None or len(e[2]) != 1:
+                    raise Unsupported('constructor %s::%s' % (p[0], p[1]))
+                t, c, _ = tr_expr(e[2][0], cx, pty)
+                return '%s_%s %s' % (p[0], p[1], atom(t)), c, p[0]
             if len(p) == 2 and p[1] == 'get_type' and p[0] in w.get_type:
                 return w.get_type[p[0]], [], 'AttributeType'
             if p == ['Duration', 'default'] or p == ['Duration', 'ZERO']:
@@ -1125,6 +1187,11 @@ def tr_expr(e, cx, expect=None):
                 inner = inner[1]
             if inner[0] == 'mcall' and inner[2] == 'try_into':
                 to = w.norm(expect)
+                ma = re.match(r'^\[u8;(.+)\]$', to)
+                if ma:
+                    nt, nc, _ = tr_expr(P(lex(ma.group(1))).expr(), cx, 'usize')
+                    t, c, _ = tr_expr(inner[1], cx)
+                    return t, c + nc + ['len %s =? %s' % (atom(t), atom(nt))], to
                 if to not in INT_BITS:
                     raise Unsupported('try_into() to an unknown type')
                 t, c, _ = tr_expr(inner[1], cx)
@@ -1562,6 +1629,26 @@ def tr_stmts(stmts, tail, cx, k):
     s, rest = stmts[0], stmts[1:]
     if s[0] == 'expr' and s[1][0] == 'macro':
         return tr_stmts(rest, tail, cx, k)
+    if s[0] == 'letelse':
+        pat, e, eb = s[1], s[2], s[3]
+
+        def le(cx2, e2):
+            def with_scrut(cx3, st, sty):
+                pt, binds = tr_pat(pat, cx3, sty)
+                cxa = cx3.copy()
+                for rn, v in binds.items():
+                    cxa.vars[rn] = v
+                a = tr_stmts(rest, tail, cxa, k)
+                b = tr_stmts(eb[1], eb[2], cx3.copy(), lambda cx4, v: k(cx4, v))
+                return 'match %s with\n  | %s => %s\n  | _ => %s\n  end' % (st, pt, a, b)
+            call = effect_call(e2, cx2)
+            if call:
+                return bind_effect(call, cx2, with_scrut)
+            st, sc, sty = tr_expr(e2, cx2)
+            return chk(sc, with_scrut(cx2, st, sty), cx2)
+        if needs_hoist(e, cx):
+            return with_tries(e, cx, None, le)
+        return le(cx, e)
     if s[0] == 'break':
         if cx.break_k is None:
             raise Unsupported('break outside a loop')
@@ -1644,6 +1731,18 @@ def tr_stmts(stmts, tail, cx, k):
                     if cx.w.norm(vty, cx.self_ty) not in ('u16', 'u8'):
                         conds.append('%s <? 65536' % atom(vt))
                     return chk(conds, 'let %s := be_write16 %s %s %s in\n  %s' % (g, g, atom(at), atom(vt), tr_stmts(rest, tail, cx, k)), cx)
+        if e[0] == 'mcall' and e[2] == 'copy_from_slice' and len(e[3]) == 1 and e[1][0] == 'index' and e[1][2][0] == 'range':
+            # PLACE[a..b].copy_from_slice(src): panics unless the range is inside PLACE and b - a == src.len()
+            key = place_key(e[1][1])
+            if key is not None and (key in cx.vars or key in cx.places):
+                g = assign_place(cx, key, None)
+                _, rc, _ = tr_expr(e[1], cx)
+                a = e[1][2][1]
+                at = '0' if a is None else tr_expr(a, cx, 'usize')[0]
+                bt = ('len %s' % g) if e[1][2][2] is None else tr_expr(e[1][2][2], cx, 'usize')[0]
+                st, sc, _ = tr_expr(e[3][0], cx)
+                conds = rc + sc + ['%s - %s =? len %s' % (atom(bt), atom(at), atom(st))]
+                return chk(conds, 'let %s := list_splice %s %s %s in\n  %s' % (g, g, atom(at), atom(st), tr_stmts(rest, tail, cx, k)), cx)
         if e[0] == 'path':
             return tr_stmts(rest, tail, cx, k)     # what is left of `f(..)?;` once the `?` is bound
         if e[0] == 'call' or e[0] == 'mcall':
@@ -1818,6 +1917,7 @@ def translate_fn(world, gname, src, fn, self_ty=None, recv_record=None):
         p = p.strip()
         if re.match(r"^&(?:'\w+\s+)?mut\s+self$", p) or p in ('&self', 'self', 'mut self'):
             recv = 'mut' if 'mut' in p and p != 'mut self' else 'ref'
+            by_value = p in ('self', 'mut self')
             sty = world.norm(self_ty)
             if sty in world.records:
                 binders.append('(self : %s)' % sty)
@@ -1825,7 +1925,7 @@ def translate_fn(world, gname, src, fn, self_ty=None, recv_record=None):
                     g = 'self_%s' % f
                     entry_lets.append('let %s := %s_%s self in' % (g, sty, f))
                     cx.places['self.%s' % f] = (g, fty)
-                    if recv == 'mut':
+                    if recv == 'mut' or p == 'mut self':
                         cx.muts.append((g, fty))
                 if recv == 'mut':
                     cx.recvs.append(('self', sty))
@@ -1955,8 +2055,8 @@ def main():
     def emit_newtype(rel, name):
         try:
             kind, fs = find_struct(strip_comments(read(rel)), name)
-            if kind != 'tuple' or len(fs) != 1 or not (w.norm(fs[0]) in INT_BITS or is_bytes(w.norm(fs[0]))):
-                raise Unsupported('%s is not an integer / byte-slice newtype' % name)
+            if kind != 'tuple' or len(fs) != 1 or not (w.norm(fs[0]) in INT_BITS or is_bytes(w.norm(fs[0])) or w.norm(fs[0]) in w.records):
+                raise Unsupported('%s is not a newtype over an integer, a byte slice or a translated record' % name)
             w.newtypes[name] = w.norm(fs[0])
         except Unsupported as ex:
             failures.append('newtype %s: %s' % (name, ex))
@@ -1969,6 +2069,18 @@ def main():
             out.append('')
         except Unsupported as ex:
             failures.append('enum %s: %s' % (name, ex))
+
+    def emit_penum(rel, name):
+        try:
+            vs = find_payload_enum(strip_comments(read(rel)), name)
+            w.penums[name] = [(v, (w.norm(t) if t else None)) for v, t in vs]
+            ctors = ' | '.join('%s_%s%s' % (name, v, (' (_ : %s)' % w.gty(t)) if t else '') for v, t in vs)
+            out.append('(* %s :: enum %s *)' % (rel, name))
+            out.append('Inductive %s := %s.' % (name, ctors))
+            out.append('')
+        except Unsupported as ex:
+            failures.append('enum %s: %s' % (name, ex))
+            w.penums.pop(name, None)
 
     def emit_consts(rel):
         """file-level `const NAME: T = EXPR;` items with an integer or f32 value become known constants"""
@@ -2036,6 +2148,19 @@ def main():
     emit_fn('gen_RawAttributesIter_next', raw, 'next', 'RawAttributesIter', r"impl<'a>\s+FallibleIterator\s+for\s+RawAttributesIter<'a>")
     emit_fn('gen_RawAttributes_into_fallible_iter', raw, 'into_fallible_iter', 'RawAttributes', r"impl<'a>\s+IntoFallibleIterator\s+for\s+RawAttributes<'a>")
     emit_fn('gen_get_input_text', raw, 'get_input_text', key=(None, 'get_input_text'))
+
+    # ---- stun-agent/src/lib.rs : the stream reassembler StunPacketDecoder (C16, C03)
+    lib = 'stun-agent/src/lib.rs'
+    emit_fn('gen_MessageHeader_try_from', raw, 'try_from', 'MessageHeader', r"impl<'a>\s+TryFrom<&'a\s*\[u8;\s*MESSAGE_HEADER_SIZE\]>\s+for\s+MessageHeader<'a>")
+    emit_enum(lib, 'StunPacketErrorType')
+    emit_record(lib, 'StunPacketInternal')
+    emit_newtype(lib, 'StunPacket')
+    emit_fn('gen_StunPacket_new', lib, 'new', 'StunPacket', r'impl\s+StunPacket')
+    emit_record(lib, 'StunPacketDecoder')
+    emit_record(lib, 'StunPacketDecodedError')
+    emit_penum(lib, 'StunPacketDecodedValue')
+    emit_fn('gen_StunPacketDecoder_new', lib, 'new', 'StunPacketDecoder', r'impl\s+StunPacketDecoder')
+    emit_fn('gen_StunPacketDecoder_decode', lib, 'decode', 'StunPacketDecoder', r'impl\s+StunPacketDecoder')
 
     # ---- stun-agent/src/rtt.rs : the RTO estimator (C15); Duration::mul_f32 is Agent/F32.mul_f32 (binary32, round to nearest even)
     rtt = 'stun-agent/src/rtt.rs'
